@@ -145,3 +145,14 @@ pub fn collation_inversions() -> Vec<(String, String)> {
     }
     v
 }
+
+/// Pairs (long, short) where `short` is a proper suffix of `long` as strings AND as Shift-JIS
+/// bytes, with heads of different UTF-8 / Shift-JIS lengths (a writer that shares tails, or a
+/// reader that indexes the text pool by string starts, meets these).
+pub fn suffix_pairs() -> Vec<(String, String)> {
+    [("攻撃力", "力"), ("MID_H_Chrom", "Chrom"), ("unit_model.bin", "model.bin"), ("ｱｲｳ", "ｳ"), ("日本", "本"), ("xソ", "ソ"), ("aé".replace('é', "×").as_str(), "×"), ("ab", "b"), ("ab", ""), ("漢字ab", "ab"), ("ﾂｱ.bin", ".bin"), ("クロム_Body", "Body"), ("ｶﾞ_x", "_x")]
+        .iter()
+        .map(|(a, b)| (a.to_string(), b.to_string()))
+        .filter(|(a, b)| lossless(a) && (b.is_empty() || lossless(b)) && encode(a).unwrap().ends_with(&encode(b).unwrap_or_default()))
+        .collect()
+}
